@@ -453,6 +453,7 @@ func Run(seed uint64, index int64, o hx.Opts) *hx.Result {
 			}
 			var pc simnet.Conn
 			tr := transport.NewTransport("nbt")
+			connected := &rt.Flag{} // set once the receiver's Connect has returned
 			peer := rt.GoHarness("peer", "10.0.0.2", func() {
 				c, err := ln.Accept()
 				if err != nil {
@@ -492,7 +493,9 @@ func Run(seed uint64, index int64, o hx.Opts) *hx.Result {
 				case cutRST:
 					simnet.Abort(c)
 				case cutLocal:
-					// wait until everything sent was delivered, then close the *receiver's* transport from this other task
+					// wait until the receiver is connected and everything sent was delivered, then close the
+					// *receiver's* transport from this other task
+					connected.Wait(-1)
 					for {
 						_, inflight, _, _ := simnet.Unread(simnet.Peer(c))
 						if inflight == 0 {
@@ -509,9 +512,11 @@ func Run(seed uint64, index int64, o hx.Opts) *hx.Result {
 			})
 			sut := rt.GoHarness("receiver", "10.0.0.1", func() {
 				if err := tr.Connect(net.IP{10, 0, 0, 2}, 139); err != nil {
+					connected.Set()
 					bad = &hx.Violation{Class: "connect", Key: "connect", Msg: err.Error()}
 					return
 				}
+				connected.Set()
 				if len(pl.keepAt) > 0 {
 					recvs = receiveLenient(tr, len(legal)+len(pl.keepAt)+4)
 				} else {
